@@ -228,6 +228,27 @@ CHECKS = {
             'deterministic simulation: hostile request-history / hostile '
             'source search with a filesystem access recorder and '
             'before/after snapshots', 'DESIGN.md 4 C13'),
+    'C14': ('c14_sftp_protocol',
+            'Three populations: (client) a real SFTP client with 2..12 '
+            'concurrent uniquely identifiable requests against the '
+            'adversarial responder, which reorders replies and may answer '
+            'with an unknown id, twice, or with a wrong/empty reply type: '
+            'each caller gets its own reply or an SFTPError, none hangs; '
+            '(server) a raw requester pipelines every request type valid/'
+            'truncated/extended/unsupported at SFTP v3..6 to the real server '
+            'handler over an in-memory SFTPServer raising chosen OSErrors: '
+            'exactly one response per id, of a legal type, errno mapped to '
+            'the status the version defines, FX_OP_UNSUPPORTED for unknown '
+            'types, a sentinel request still served; (attrs) drawn attribute '
+            'sets exchanged through stat/readdir at v3..6 arrive unchanged '
+            'in the fields that version can carry.',
+            COMMON_NOTE + ' The errno->status table and per-version field '
+            'sets are written down in the check from the SFTP drafts; uid/'
+            'gid<->owner/group, ACLs and extended attributes are not '
+            'compared.',
+            'deterministic simulation: reply-order schedule search + '
+            'responder/requester fault injection, per-request response '
+            'accounting', 'DESIGN.md 4 C14'),
 }
 
 NOT_YET = {}
